@@ -336,4 +336,120 @@ def vflCollect (sizes : List Nat) : Nat → Option (List Nat) → List (List Nat
 
 def variableForLoop (sizes : List Nat) (fuel : Nat) : List (List Nat) := vflCollect sizes fuel (vflInit sizes) []
 
+/-! ### EventSet::get_topological_ordering (src/mc/explo/udpor/EventSet.cpp) -/
+
+/-- local variables of `get_topological_ordering`: `event_stack` (head = top), `topological_ordering`, `unknown_events`,
+`temporarily_marked_events`, `permanently_marked_events`, `discovered_events` -/
+structure TopoState where
+  stack : List Nat
+  out : List Nat
+  unknown : EventSet
+  temp : EventSet
+  perm : EventSet
+  disc : EventSet
+
+inductive InnerRes where
+  | cycle                    -- `throw std::invalid_argument(... contain a cycle ...)`
+  | fuel                     -- the bound of the model was hit (proved impossible, `Props.topological_ordering_valid`)
+  | done (st : TopoState)
+
+inductive TopoRes where
+  | cycle | fuel | ok (l : List Nat)
+  deriving DecidableEq, Repr
+
+/-- the largest number of immediate causes of an event -/
+def ES.maxCauses (es : ES) : Nat := (es.causes.map List.length).foldl max 0
+
+section
+/- `skipEmitted = true` is the code after commit e7a2e0d8bb ("already-emitted events are skipped"); `false` the code
+before it (kept for the regression theorem).  `pick` = `*unknown_events.begin()`; `order evt l` = the order in which
+`std::for_each(immediate_causes.begin(), …)` visits the remaining causes `l` of `evt` (hash order: any permutation). -/
+variable (skipEmitted : Bool) (pick : List Nat → Option Nat) (order : Nat → List Nat → List Nat)
+
+/-- the inner `while (not event_stack.empty())` loop -/
+def topoInner (es : ES) (s : EventSet) : Nat → TopoState → InnerRes
+  | 0, st => if st.stack.isEmpty then .done st else .fuel
+  | fuel + 1, st =>
+    match st.stack with
+    | [] => .done st
+    | evt :: rest =>
+      -- `if (permanently_marked_events.contains(evt)) { event_stack.pop(); continue; }`
+      if skipEmitted && st.perm.elem evt then topoInner es s fuel { st with stack := rest }
+      else
+        let disc := EventSet.insert st.disc evt
+        if !st.temp.elem evt then
+          let temp := EventSet.insert st.temp evt
+          let causes := es.causesOf evt
+          if !causes.isEmpty && EventSet.isSubsetOf causes temp then .cycle
+          else
+            let c := EventSet.subtract (EventSet.subtract causes disc) st.perm
+            -- each remaining cause is pushed: the last one visited by `for_each` ends on top
+            topoInner es s fuel { st with disc := disc, temp := temp, stack := (order evt c).reverse ++ st.stack }
+        else
+          topoInner es s fuel
+            { stack := rest,
+              out := if s.elem evt then st.out ++ [evt] else st.out,      -- `if (this->contains(evt)) push_back`
+              unknown := EventSet.remove st.unknown evt,
+              temp := EventSet.remove st.temp evt,
+              perm := EventSet.insert st.perm evt,
+              disc := disc }
+
+/-- enough for the inner loop (`Lemmas`: every step decreases `stack.length + (maxCauses + 1) * #unmarked events`) -/
+def ES.innerFuel (es : ES) : Nat := 1 + (es.maxCauses + 1) * es.n
+
+/-- the outer `while (not unknown_events.empty())` loop -/
+def topoOuter (es : ES) (s : EventSet) : Nat → TopoState → TopoRes
+  | 0, st =>
+    match pick st.unknown with
+    | none => .ok st.out
+    | some _ => .fuel
+  | fuel + 1, st =>
+    match pick st.unknown with
+    | none => .ok st.out
+    | some u =>
+      match topoInner skipEmitted order es s es.innerFuel { st with disc := [], stack := [u] } with
+      | .cycle => .cycle
+      | .fuel => .fuel
+      | .done st' => topoOuter es s fuel st'
+
+/-- `EventSet::get_topological_ordering()` -/
+def getTopologicalOrdering (es : ES) (s : EventSet) : TopoRes :=
+  if s.isEmpty then .ok [] else topoOuter skipEmitted pick order es s s.length ⟨[], [], s, [], [], []⟩
+
+/-- `EventSet::get_topological_ordering_of_reverse_graph()` -/
+def getTopologicalOrderingOfReverseGraph (es : ES) (s : EventSet) : TopoRes :=
+  match getTopologicalOrdering skipEmitted pick order es s with
+  | .ok l => .ok l.reverse
+  | r => r
+
+end
+
+/-! ### recursive SPECIFICATIONS of the enumerators (what the machines above are proved equal to in Props.lean) -/
+
+/-- all `k`-element sub-lists of `xs`, in lexicographic order of positions -/
+def combos : Nat → List Nat → List (List Nat)
+  | 0, _ => [[]]
+  | _ + 1, [] => []
+  | k + 1, x :: r => (combos k r).map (x :: ·) ++ combos (k + 1) r
+
+/-- all tuples `(i₀, i₁, …)` with `i_j < sizes[j]`, in lexicographic order -/
+def product : List Nat → List (List Nat)
+  | [] => [[]]
+  | s :: r => (List.range s).flatMap (fun i => (product r).map (i :: ·))
+
+/-- `maximal_subsets_iterator::can_grow_maximal_set` on a set of `len` events -/
+def canGrowLen (maxSize : Option Nat) (len : Nat) : Bool :=
+  match maxSize with
+  | some m => decide (len < m)
+  | none => true
+
+/-- depth-first (pre-order) enumeration of the non-empty extensions `c ++ s` of `c` by sub-lists `s` of the candidate
+list whose every element `e` passes the test `ok` against the set built so far, limited to `maxSize` elements -/
+def dfsL (ok : EventSet → Nat → Bool) (maxSize : Option Nat) : EventSet → List Nat → List EventSet
+  | _, [] => []
+  | c, e :: r =>
+    if ok c e then
+      (c ++ [e]) :: ((if canGrowLen maxSize (c.length + 1) then dfsL ok maxSize (c ++ [e]) r else []) ++ dfsL ok maxSize c r)
+    else dfsL ok maxSize c r
+
 end SgVerif.C44
